@@ -197,6 +197,11 @@ class ReqHarness:
         seed = seed.replace("recycle:", "")
         self.reent = seed.startswith("reent:")
         seed = seed.replace("reent:", "")
+        # every device chunk arrives in two reads, the first one ending one byte short (complete frames, then an incomplete one)
+        self.split = seed.startswith("split:")
+        seed = seed.replace("split:", "")
+        if self.split:
+            nd = False
         if self.recycle:
             nd = False
         self.seed = seed
@@ -306,8 +311,8 @@ class ReqHarness:
             kind = "io"
             atoms = label[2:].split("+")
             data = b"".join(w.dframe(mk(MSGS[a][0], **MSGS[a][1])) for a in atoms)
-            if self.recycle and len(data) > 3:
-                cut = len(data) // 2 + 1
+            if (self.recycle or self.split) and len(data) > 3:
+                cut = len(data) // 2 + 1 if self.recycle else len(data) - 1
                 w.chunks.append([])
                 w.io_chunk(w.sock, data[:cut])
                 w.step()
@@ -583,7 +588,7 @@ def run(tier: str, seed: int) -> Result:
     cfgs = [("", 4 if q else 5, 1 if q else 2), ("A", 3 if q else 5, 2), ("B", 3 if q else 5, 2), ("AB", 3 if q else 4, 1 if q else 2),
             ("AC", 3 if q else 4, 2), ("ABC", 3 if q else 4, 1 if q else 2), ("BD", 3 if q else 4, 1 if q else 2),
             ("B.D", 3 if q else 4, 1 if q else 2), ("debug:AB", 3 if q else 4, 1 if q else 2), ("noise:AB", 3 if q else 4, 1 if q else 2), ("recycle:AB", 3 if q else 4, 1 if q else 2),
-            ("reent:", 3 if q else 4, 1 if q else 2), ("reent:A", 3 if q else 4, 1 if q else 2)]
+            ("reent:", 3 if q else 4, 1 if q else 2), ("reent:A", 3 if q else 4, 1 if q else 2), ("split:AB", 3 if q else 4, 1 if q else 2)]
     budget = 240.0 if q else 2400.0
     t_end = time.monotonic() + budget
     per_cfg = []
